@@ -73,6 +73,11 @@ def gen_cases(rng, tier):
     for w in sorted(words):
         add(f"word {w} into_lsb ; from_lsb ; len")
         add(f"word {w} from_lsb")
+        add(f"new_from_lsb {w}")
+        add(f"new {w}")
+        add(f"word {w} clear ; len ; empty")
+    add("new_from_lsb 0")
+    add("new 0")
     # from_lsb ∘ into_lsb and into_lsb ∘ from_lsb are checked by chaining through the oracle
     for k in range(65):
         for d in (-1, 0, 1):
@@ -92,6 +97,16 @@ def oracle(case, out):
         n = int(toks[1])
         exp = max(1, n.bit_length())
         return None if out == str(exp) else f"bits_for({n}) = {out}, minimal non-zero width is {exp}"
+    if toks[0] in ("new", "new_from_lsb"):
+        v = int(toks[1])
+        if v == 0:
+            exp = "none"
+        elif toks[0] == "new":
+            exp = f"some {v}"
+        else:
+            ll = v.bit_length() - 1
+            exp = f"some {encode(ll, v - (1 << ll))}"      # every non-zero word is the LSB form of exactly one key
+        return None if out == exp else f"{toks[0]}({v}) = {out}, expected {exp}"
     w = int(toks[1])
     l, c = decode(w)
     ops = " ".join(toks[2:]).split(" ; ")
@@ -130,6 +145,10 @@ def oracle(case, out):
             if int(r) != 0 and exp == r:
                 # bijection: from_lsb of it must give the word back (checked when the case chains it)
                 pass
+        elif o[0] == "clear":
+            l, c = 0, 0
+            cur = encode(0, 0)
+            exp = str(cur)
         elif o[0] == "from_lsb":
             # applies to the *current word* interpreted as an LSB value
             ll = cur.bit_length() - 1
@@ -149,8 +168,8 @@ def oracle(case, out):
 
 def nontrivial(case, out):
     toks = case.split()[2:]
-    if toks[0] == "bits_for":
-        return ("bits_for", toks[1])
+    if toks[0] in ("bits_for", "new", "new_from_lsb"):
+        return (toks[0], toks[1])
     kinds = tuple(sorted(set(o.split()[0] for o in " ".join(toks[2:]).split(" ; "))))
     some = "some" in out
     none = "none" in out
